@@ -12,5 +12,5 @@ CONSTANTS Principals = {"A"}
           FilterOnOwner = TRUE
           FixedF8 = TRUE
           Person <- IdPerson
-INVARIANTS NoUnexplainedRead NoUnexplainedEffect NoUnexplainedResult ResultsMatchCode ErrorNotEmpty EndedNotRunning
+INVARIANTS NoUnexplainedRead NoUnexplainedEffect NoUnexplainedResult NoUnexplainedLoss ResultsMatchCode ErrorNotEmpty EndedNotRunning
 CHECK_DEADLOCK FALSE
